@@ -14,7 +14,8 @@ RULE = ('generated source directories converted by the real EphysAlfCreator: (a)
         'C09 (integer templates / inverse whitening matrix / amplitudes / positions / features) with 2..14 channels (fewer '
         'and more than n_closest_channels = 12), geometries with L1-distance ties (column, square, staggered, grid), probe '
         'tables absent / constant / Merger-like with 2 or 3 probes and shuffled channel order / arbitrary, permuted channel '
-        'maps inside wider raw files, curated or not, ids without spikes, features full / subset / none; (b) merged '
+        'maps inside wider raw files, curated (emptied ids below and above n_templates) or not (unused template at the start / '
+        'in the middle / at the end), features full / subset / none; (b) merged '
         'datasets produced by running the real Merger on 1..4 probe directories of unequal channel counts with permuted '
         'channel maps (then the real exporter), optionally with a pc_features.npy added to the merged directory. '
         'Corpus first (the three-probe maps [2,0,1] [1,3,0,2] [0,1], narrow probes, 12/13/14 channels), then axis '
@@ -27,9 +28,9 @@ CLAUSES = {
     21: 'C14_waveforms: templates.waveforms / clusters.waveforms = unwhitened x amplitude rescaling x unit factor on the listed channels',
     22: 'C14_channels: listed channels = nearest channels of the peak channel\'s probe by L1 distance, peak channel first',
     23: 'C14_amp_units: spikes.amps, templates.amps, clusters.amps carry the unit factor',
-    24: 'C14_cluster_depths: clusters.depths = depth of the peak channel, NaN for ids without spikes; clusters.channels',
+    24: 'C14_cluster_depths: clusters.depths = depth of the peak channel, NaN for ids without spikes (curated or not); clusters.channels',
     25: 'C14_spike_depths: spikes.depths = feature-weighted depths, or the cluster depth without a full feature store',
-    26: 'C14_durations: clusters.peakToTrough = peak-to-trough time in ms on the peak channel',
+    26: 'C14_durations: clusters.peakToTrough = peak-to-trough time in ms on the peak channel, NaN for ids without spikes (curated or not)',
     27: 'C14_rawind: channels.rawInd restricted to probe k = probe k\'s original channel map (merged datasets of any number of probes)',
 }
 TRUSTED = ['np.load/np.save, the TemplateModel loader (C04), cluster_waveforms (C08) and, for merged datasets, the Merger (C11/C12): '
@@ -78,6 +79,23 @@ def generate(tier, rng):
               dict(zero_template=True), dict(neg_amp=True), dict(table='random', nc=5), dict(table='const', nc=4, cm_dtype='uint32'),
               dict(table='like3', nc=6, cm_dtype='uint32'), dict(table='like2', nc=5, label='probe00', factor=2.5)]:
         cases.append(_case(X.gen_single(rng, **o)))
+    # (d) nan_idx pass (fix-c14b): ids without spikes must be NaN in clusters.depths / clusters.peakToTrough whether or not the
+    # dataset is curated.  Uncurated with an unused template at the START / in the MIDDLE / at the END / at both ends / two at
+    # the end / all but one; with and without a spike_clusters file equal to spike_templates (given st + sc)
+    for emp in ('start', 'middle', 'end', 'ends', 'tail2', 'most', 'none'):
+        cases.append(_case(X.gen_single(rng, curated=False, empty=emp, nt=4, nspk=6, features=rng.choice(['full', 'subset', 'none']),
+                                        nc=rng.choice([3, 4, 5]))))
+    cases.append(_case(X.gen_single(rng, curated=False, nt=4, nspk=5, st=[0, 1, 3, 0, 1], sc=None, features='none', nc=4)))
+    cases.append(_case(X.gen_single(rng, curated=False, nt=4, nspk=4, st=[1, 3, 3, 1], sc=[1, 3, 3, 1], features='full', nc=3)))
+    cases.append(_case(X.gen_single(rng, curated=False, nt=5, nspk=3, st=[2, 2, 2], sc=None, features='subset', nc=5)))
+    for emp in ('start', 'middle', 'end'):
+        cases.append(_case(X.gen_merged(rng, k=2, ncs=[3, 4], curated=False, empty=emp, nt=3, nspk=5)))
+    cases.append(_case(X.gen_merged(rng, k=3, ncs=[2, 3, 2], curated=False, empty='end', nt=3, nspk=4, mfeatures=True)))
+    # curated, emptied ids BELOW and ABOVE n_templates (merge 0+1 -> 3, split 3 -> 5 / 6 or 5 / 7, id 4 never used, template 2 kept)
+    cases.append(_case(X.gen_single(rng, curated=True, nt=3, nspk=4, st=[0, 1, 2, 2], sc=[5, 6, 2, 2], features='none', nc=4)))
+    cases.append(_case(X.gen_single(rng, curated=True, nt=3, nspk=5, st=[0, 1, 2, 2, 0], sc=[5, 5, 7, 2, 5], features='full', nc=3)))
+    cases.append(_case(X.gen_single(rng, curated=True, nt=4, nspk=6, st=[0, 1, 2, 3, 2, 3], sc=[6, 6, 6, 6, 6, 6], features='subset', nc=5)))
+    cases.append(_case(X.gen_single(rng, curated=True, nt=2, nspk=4, st=[0, 0, 1, 1], sc=[1, 1, 4, 6], features='none', nc=3)))
     # ---- axis products ------------------------------------------------------------------------------------
     n_axis, n_single, n_merged = {'quick': (2, 80, 80), 'thorough': (10, 2500, 2500), 'search': (2, 150, 150)}[tier]
     for _ in range(n_axis):
@@ -210,6 +228,17 @@ def dist(case, obs):
         out += ['single.table=%s' % o['table'], 'single.curated=%s' % o['curated'], 'single.features=%s' % o['features'],
                 'single.empty=%s' % o['empty'],
                 'single.channels=%s' % ('<12' if o['nc'] < 12 else '=12' if o['nc'] == 12 else '>12')]
+    for sem in inp['probes']:
+        st_, sc_ = sem['spike_templates'], sem.get('spike_clusters')
+        nt_ = sem['n_templates']
+        if sc_ is None or list(sc_) == list(st_):
+            un = [t for t in range(nt_) if t not in set(st_)]
+            out.append('uncurated.unused=%s' % ('+'.join(k for k, f in (('start', 0 in un), ('middle', any(0 < t < nt_ - 1 for t in un)),
+                                                                       ('end', nt_ - 1 in un)) if f) or 'none'))
+        else:
+            em = [c for c in range(max(sc_) + 1) if c not in set(sc_)]
+            out.append('curated.emptied=%s' % ('+'.join(k for k, f in (('below_nt', any(c < nt_ for c in em)),
+                                                                      ('at_or_above_nt', any(c >= nt_ for c in em))) if f) or 'none'))
     if obs[0] == 'ok':
         v = obs[2]
         if v.get('clusters.depths') is not None:
